@@ -1601,6 +1601,8 @@ def _pat_construct(kind, body, depth, sel=("var", "p0")):
     cond = ("cmp", "lt", "I", ("var", "p0"), ("var", "p1"), False) if depth == 0 else ("cmp", "gtz"[:2], "I", ("var", "p1"), _c(0), True)
     inc = ("assign", k, ("bin", "add", "I", ("var", k), 1, "lit8"))
     lc = ("cmp", "lt", "I", ("var", k), _c(3), False)
+    if kind == "empty-if":
+        return [("if", ("cmp", "gt", "I", ("bin", "rem", "I", ("var", "p0"), 3, "lit8"), _c(0), True), [], [])]
     if kind == "if":
         return [("if", cond, body, [])]
     if kind == "if-else":
@@ -1650,6 +1652,13 @@ def pattern_methods(rng):
                 inner = _pat_construct(b, [_acc()], 1, sel=("var", "p1"))
                 body = ([pre] if pos in ("last", "mid") else []) + inner + ([post] if pos in ("first", "mid") else [])
                 add("PC", "I", P2, [init] + _pat_construct(a, body, 0) + [("return", x0)], "nest:%s/%s" % (a, b), pos)
+        for pos in ("only", "first", "last", "mid"):
+            body = ([pre] if pos in ("last", "mid") else []) + _pat_construct("empty-if", [], 1) + ([post] if pos in ("first", "mid") else [])
+            if a.endswith("switch") and pos == "only":
+                continue
+            add("PC", "I", P2, [init] + _pat_construct(a, body, 0) + [("return", x0)], "nest:%s/empty-if" % a, pos)
+        add("PC", "I", P2, [init] + _pat_construct(a, [_acc()], 0) + _pat_construct("empty-if", [], 1) + [("return", x0)], "seq:%s;empty-if" % a, "seq")
+        add("PC", "I", P2, [init] + _pat_construct("empty-if", [], 1) + _pat_construct(a, [_acc()], 0) + [("return", x0)], "seq:empty-if;%s" % a, "seq")
         # two constructs in sequence
         for b in CONSTRUCTS:
             add("PC", "I", P2, [init] + _pat_construct(a, [_acc()], 0) + _pat_construct(b, [_acc(_c(2))], 1, sel=("var", "p1")) + [("return", x0)],
@@ -1679,6 +1688,8 @@ def pattern_methods(rng):
             "empty-case": ([([keys[0]], a1, False), ([keys[1]], brk, False)], [pre]),
             "empty-cases-empty-default": ([([keys[0]], a1, False), ([keys[1], keys[2]], brk, False)], []),
             "two-empty-cases": ([([keys[0]], a1, False), ([keys[1]], brk, False), ([keys[2]], brk, False)], [pre]),
+            "multi-label-empty-case": ([([keys[0]], a1, False), ([keys[1], keys[2]], brk, False)], [pre]),
+            "multi-label-empty-case-no-default": ([([keys[0]], a1, False), ([keys[1], keys[2]], brk, False)], None),
             "two-empty-cases-no-default": ([([keys[0]], a1, False), ([keys[1]], brk, False), ([keys[2]], brk, False)], None),
             "default-returns": ([([keys[0]], a1, False), ([keys[1]], [post], False)], [("return", ("var", "p1"))]),
             "if-in-case": ([([keys[0]], [("if", ("cmp", "lt", "I", x0, ("var", "p1"), False), a1, [post])], False), ([keys[1]], [post], False)], [pre]),
@@ -1726,6 +1737,9 @@ def pattern_methods(rng):
         "two-divs-order": [("assign", "x0", ("bin", "div", "I", ("var", "p0"), ("var", "p1"), "3reg")), ("assign", "x1", ("bin", "rem", "I", ("var", "p1"), ("var", "p0"), "3reg")),
                            ("return", ("bin", "sub", "I", ("var", "x1"), x0, "3reg"))],
     }
+    pd["redef-in-do-while-body-use-after"] = [T1, k0, ("dowhile", [T2, inc], lc), rx1]
+    pd["redef-in-do-while-body-use-in-next-loop"] = [T1, k0, ("dowhile", [("assign", "x1", ("var", "k0")), inc], lc), k0,
+                                                      ("dowhile", [("if", c1, [("assign", "x1", ("bin", "or", "I", ("var", "x1"), ("var", "p1"), "3reg"))], []), inc], lc), rx1]
     kk = ("assign", "k0", _c(0))
     du = ("assign", "x1", ("bin", "rem", "I", x0, ("var", "k0"), "3reg"))
     pd["def-in-both-branches-only-dead-use-after"] = [("if", c1, [T1], [T2]), ("assign", "x0", ("bin", "rem", "I", ("var", "x1"), 3, "lit8")), ("return", ("var", "p0"))]
@@ -1737,7 +1751,8 @@ def pattern_methods(rng):
                                                ("return", ("bin", "xor", "I", ("var", "x1"), ("var", "p1"), "3reg"))]
     pd["counters-in-sibling-branches-only-dead-use-after"] = [("assign", "x0", _c(5)), ("if", c1, [kk, ("while", lc, [_acc(), inc], "top")], [kk, ("while", lc, [_acc(_c(2)), inc], "top")]),
                                                                  du, ("return", x0)]
-    alias = {"def-only-in-do-while-body-use-after": "def-only-in-do-while-body", "def-only-in-do-while-body-use-after-and-in-body": "def-only-in-do-while-body",
+    alias = {"def-only-in-do-while-body-use-after": "def-in-do-while-body", "def-only-in-do-while-body-use-after-and-in-body": "def-in-do-while-body",
+             "redef-in-do-while-body-use-after": "def-in-do-while-body", "redef-in-do-while-body-use-in-next-loop": "def-in-do-while-body",
              "def-in-both-branches-only-dead-use-after": "dead-stmt-uses-local", "counters-in-sibling-branches-only-dead-use-after": "dead-stmt-uses-local"}
     for name, body in pd.items():
         if name.startswith("const-local-"):
@@ -1777,6 +1792,8 @@ def pattern_methods(rng):
 def construct_name(s):
     k = s[0]
     if k == "if":
+        if not s[2] and not s[3]:
+            return "empty-if"
         return "if-else" if s[3] else "if"
     if k == "while":
         return "while-" + s[3]
@@ -1819,6 +1836,8 @@ def switch_props(s):
             p.add("multi-label")
         if not body:
             p.add("two-empty-cases" if "empty-case" in p else "empty-case")
+            if len(ks) > 1:
+                p.add("multi-label-empty-case")
         if body and not block_falls(body):
             nret += 1
             p.add("case-returns")
@@ -1848,6 +1867,7 @@ VARIANT_PROPS = {
     "empty-case": {"empty-case"}, "empty-cases-empty-default": {"empty-case", "multi-label", "empty-default"}, "default-returns": {"default-returns"},
     "if-in-case": {"if-in-case"}, "if-return-falls-into-next-case": {"if-return-falls-into-next-case"},
     "two-empty-cases": {"two-empty-cases"}, "two-empty-cases-no-default": {"two-empty-cases", "no-default"},
+    "multi-label-empty-case": {"multi-label-empty-case"}, "multi-label-empty-case-no-default": {"multi-label-empty-case", "no-default"},
 }
 NARROW = ("int-to-byte", "int-to-char", "int-to-short")
 
@@ -1898,8 +1918,8 @@ def structural_features(m):
                 walk(s[2], chain + [name], da)
             elif k == "dowhile":
                 a = walk(s[1], chain + [name], da)
-                if a - da - {n for n in a if n.startswith("k")}:
-                    f.add("decl:def-only-in-do-while-body")
+                if any(not n.startswith("k") for n in assigned_names(s[1])):
+                    f.add("decl:def-in-do-while-body")
                 da = a
             elif k == "switch":
                 props = switch_props(s)
@@ -2106,8 +2126,23 @@ def neutralise_struct(m, bad):
                     o.append(("switch", ex(s[1]), [(ks, bl(b2), ft) for ks, b2, ft in s[2]], None if s[3] is None else bl(s[3]), s[4]))
             return o
         body = bl(body)
-    if "decl:def-only-in-do-while-body" in bad and "decl:def-only-in-do-while-body" in m.features:
-        done.add("decl:def-only-in-do-while-body")
+    if "decl:def-in-do-while-body" in bad and "decl:def-in-do-while-body" in m.features:
+        done.add("decl:def-in-do-while-body")
+
+        def dw(stmts):
+            o = []
+            for s in stmts:
+                if s[0] == "dowhile":
+                    s = ("while", s[2], dw(s[1]), "top")
+                elif s[0] == "if":
+                    s = ("if", s[1], dw(s[2]), dw(s[3]))
+                elif s[0] == "while":
+                    s = ("while", s[1], dw(s[2]), s[3])
+                elif s[0] == "switch":
+                    s = ("switch", s[1], [(ks, dw(b), ft) for ks, b, ft in s[2]], None if s[3] is None else dw(s[3]), s[4])
+                o.append(s)
+            return o
+        body = dw(body)
     if not done:
         return None, done
     # restructuring can remove definitions: give every local an initial value (also what neutralises the decl:* features)
